@@ -44,7 +44,7 @@ theorem allocated_accounted (radius : Bool) (bits : Nat) (ins : List In) :
       = holding (run (init radius bits) ins) + (monAfter (init radius bits) (initMon radius bits) ins).stranded :=
   (run_ok (W_init radius bits) (Rel_init radius bits) ins).2.1.count
 
-theorem no_residue_without_sweep (radius : Bool) (bits : Nat) (ins : List In) (h : In.sweep ∉ ins) :
+theorem no_residue_without_sweep (radius : Bool) (bits : Nat) (ins : List In) (h : ∀ keep, In.sweep keep ∉ ins) :
     (run (init radius bits) ins).alloc.length = holding (run (init radius bits) ins) := by
   have := allocated_accounted radius bits ins
   rw [stranded_without_sweep _ _ _ h] at this
@@ -92,10 +92,14 @@ theorem held_address_not_free (radius : Bool) (bits : Nat) (ins : List In) (sid 
 
 /-! non-vacuity: the monitor does speak — on the sweep — and is silent on an ordinary history -/
 example : (runBoth (init true 30) (initMon true 30)
-    [.padr 1 true, .pap 1 1 .good .accept, .ipcp 1 1 .creqIp, .sweep]).map (·.2.1) = ["KF-pppoe-idle-leak"] := by
+    [.padr 1 true, .pap 1 1 .good .accept, .ipcp 1 1 .creqIp, .sweep []]).map (·.2.1) = ["KF-pppoe-idle-leak"] := by
   decide
 example : (runBoth (init true 30) (initMon true 30)
     [.padr 1 true, .pap 1 1 .good .accept, .ipcp 1 1 .cack, .padt 1 1]).length = 0 := by decide
+/-- a partial pass of the sweep: the idle session goes (its address stranded), the active one stays with its address -/
+example : (runBoth (init true 29) (initMon true 29)
+    [.padr 1 true, .pap 1 1 .good .accept, .padr 2 true, .pap 2 2 .good .accept, .sweep [2], .ipcp 2 2 .creqIp]).map (·.2.1)
+      = ["KF-pppoe-idle-leak"] := by decide
 example : holding (run (init true 29) [.padr 1 true, .pap 1 1 .good .accept, .padr 2 true, .pap 2 2 .good .accept,
     .lcp 1 1 .term]) = 1 := by decide
 
